@@ -262,6 +262,10 @@ func apiNoise(x any, seed uint64, name string) {
 		// (a Cluster of one member is not a cluster)
 		func(y any) any { return nject.Cluster(name, y, func(T0) {}) },
 		func(y any) any { return nject.Cluster("noise", func(T0) {}, y) },
+		// nil members are skipped: nothing is appended behind y
+		func(y any) any { return nject.Cluster(name, y, nil) },
+		func(y any) any { return nject.Sequence(name, y, nil) },
+		func(y any) any { return nject.Sequence(name, nil, y).Append(name, nil) },
 	}
 	for _, m := range []map[int]func(any) nject.Provider{looseFn, mustConsumeFn, consOptFn, shadowOKFn} {
 		keys := make([]int, 0, len(m))
